@@ -147,6 +147,47 @@ func (e *Env) c17runs() []*c17run {
 		canon.inputs[f] = strings.Join(e.Model.List[l], "\n") + "\n"
 	}
 	runs = append(runs, canon)
+	// every assigned combining mark (Mn, Mc, Me) at the start of a word, at the end of a
+	// word and alone; every assigned letter once (quick: every 7th), five per word;
+	// duplicates, normal-form-sensitive words and Go keywords
+	{
+		u := e.Uni()
+		var allMarks, allLetters []rune
+		for cp := rune(0x80); cp < 0x110000; cp++ {
+			if !u.IsAssigned(cp) {
+				continue
+			}
+			switch {
+			case strings.HasPrefix(u.Cat(cp), "M") && unicode.IsMark(cp):
+				allMarks = append(allMarks, cp)
+			case strings.HasPrefix(u.Cat(cp), "L") && unicode.IsLetter(cp):
+				allLetters = append(allLetters, cp)
+			}
+		}
+		var w1, w2, w3, w4 []string
+		for _, mk := range allMarks {
+			w1 = append(w1, string(mk)+"ab")
+			w2 = append(w2, "ab"+string(mk))
+			w3 = append(w3, string(mk))
+		}
+		stride := e.pick(7, 1)
+		for i := 0; i+5 <= len(allLetters); i += 5 * stride {
+			w4 = append(w4, string(allLetters[i:i+5]))
+		}
+		special := []string{"e\u0301", "\u00e9", "a\u0308\u0323", "a\u0323\u0308", "\u1112\u1161\u11ab", "\ud55c", "\ufb01", "\uff21", "\u212b", "\u00c5", "A\u030a", "\u0958", "\u0915\u093c",
+			"dup", "dup", "dup", "Dup", "DUP", "\u0130", "\u0131", "\u017f", "\u1e9e", "\u00df", "\u03c2", "\u03c3", "\u03a3"}
+		special = append(special, goKeywords...)
+		mk := &c17run{name: "all-marks-and-letters", inputs: map[string]string{}, shape: "plain"}
+		lists := [][]string{w1, w2, w3, w4, special, append(append([]string{}, special...), special...), w1[:len(w1)/2], w2[len(w2)/2:], w3[:100], w4[:len(w4)/3]}
+		for fi, f := range ref.Files {
+			body := strings.Join(lists[fi], "\n")
+			if fi%2 == 0 {
+				body += "\n"
+			}
+			mk.inputs[f] = body
+		}
+		runs = append(runs, mk)
+	}
 	shapes := []string{"plain", "no-trailing-newline", "blank-start", "blank-middle", "blank-end", "blank-runs"}
 	n := e.pick(11, 149)
 	e2eEvery := e.pick(6, 16)
